@@ -23,9 +23,9 @@ fn slice(tier: Tier) -> Vec<(String, PProblem)> {
     for (name, problems) in all_families(Tier::Quick) {
         let per = match (name, tier) {
             ("core", Tier::Quick) => 16,
-            ("core", _) => 60,
+            ("core", _) => 400,
             (_, Tier::Quick) => 4,
-            _ => 10,
+            _ => 80,
         };
         let candidates: Vec<PProblem> = problems.into_iter().filter(|p| p.jobs.len() >= 2).collect();
         let step = (candidates.len() / per.max(1)).max(1);
@@ -34,7 +34,7 @@ fn slice(tier: Tier) -> Vec<(String, PProblem)> {
     // recharge stations and time-dependent matrices (the oracle replays them fully)
     let n = match tier {
         Tier::Quick => 3,
-        _ => 12,
+        _ => 60,
     };
     let rc = family_recharge();
     let step = (rc.len() / n).max(1);
